@@ -88,6 +88,9 @@ def gen_unit(rng):
         need = rng.randint(1, len(recs) if mode in ("filtered-tail", "blank-tail") else 2)
         S = rng.randint(0, need - 1)
         T = need - S
+        if rng.random() < 0.2:
+            # no row is wanted at all: nothing needs to be read, whatever the input holds
+            T, S = 0, rng.randint(0, 3)
     sep = rng.choice(["\n", "\n", " ", "", "\t", "\r\n"])
     return {"prefix": recs, "args": args, "pattern": pat, "S": S, "T": T, "transport": rng.choice(["stdin", "stdin", "fifo", "file+fifo"]),
             "mode": mode, "sep": sep, "file_parts": rng.randint(0, len(recs))}
@@ -137,6 +140,8 @@ def run_unit(ctx, unit):
     if T == 0:
         # no row needs to be emitted; stopping at the first row that reaches the limiter (or earlier) is what "bounded" means
         deciding = next((j for j, c in enumerate(counts) if c >= S + 1), None)
+        if unit.get("mode", "qualifying") != "qualifying":
+            deciding = 0        # with a tail that never yields a row the only bounded behaviour is not to wait for one
     if deciding is None:
         st.inconc("tail_does_not_qualify")
         return
